@@ -58,3 +58,10 @@ Theorem C10_rpms_03_source_refiled :
     src_filed sr v a m.
 Proof. exact rpms_03_refiles. Qed.
 Print Assumptions C10_rpms_03_source_refiled.
+
+(* "unknown name" is measured against the documented architecture table: every documented name is in the regenerated one *)
+From PM Require Import Proofs.DocArches.
+Theorem C10_documented_architectures_are_known :
+  forall a, In a DOC_RPM_ARCHES -> mem_str a RPM_ARCHES = true.
+Proof. exact documented_arch_is_known. Qed.
+Print Assumptions C10_documented_architectures_are_known.
